@@ -343,7 +343,7 @@ func init() {
 	core.Register(&core.Check{
 		ID:    "C20",
 		Level: "exploration",
-		Rule: "histories are all sequences (up to a length bound, random longer ones) over {Register(type, name), Call on a literal, Call on a variable, CallInsideTemplate for 5 receiver types x names {f, g, a built-in name of that type}; LoadTemplates}, each replayed from the verif reset hook against a 20-line registry model: every registered function bakes a unique id into its result, so a call reveals which function is bound; conversion cases call a recording function with generated receivers and up to 3 arguments (integers incl. the 64-bit extremes, floats, strings, booleans, nil, nested arrays and objects to depth 3, as literals and as data) and compare what the function received with the plain Go value of the same content, and render a function result next to the same Go value passed as data, printed and probed through the same access paths. distinct_nontrivial = distinct histories and distinct conversion cases",
+		Rule:  "histories are all sequences (up to a length bound, random longer ones) over {Register(type, name), Call on a literal, Call on a variable, CallInsideTemplate for 5 receiver types x names {f, g, a built-in name of that type}; LoadTemplates}, each replayed from the verif reset hook against a 20-line registry model: every registered function bakes a unique id into its result, so a call reveals which function is bound; conversion cases call a recording function with generated receivers and up to 3 arguments (integers incl. the 64-bit extremes, floats, strings, booleans, nil, nested arrays and objects to depth 3, as literals and as data) and compare what the function received with the plain Go value of the same content, and render a function result next to the same Go value passed as data, printed and probed through the same access paths; a callee that overwrites every map and slice it receives, called repeatedly with the same variables (each call must receive the original content, the variables and the caller's data stay as they were); functions returning a nil or an empty slice, whose result is used as an array; registered functions called through EvaluateFile, Template.String and Response (page, insert block, component file, slot body). distinct_nontrivial = distinct histories and distinct conversion cases",
 		Assumptions: []string{
 			"strings with < > & \" ' travel through the data map or come back as results only (a literal would be escaped, which is C10's business); an empty array may reach a function as a nil or an empty []any, never as untyped nil",
 			"the result of a function is limited by its Go signature (string, []any, int, float64, bool)",
@@ -404,9 +404,188 @@ func init() {
 					}
 					conversionCase(c, i)
 				}})
+			secs = append(secs, core.Section{Name: "conversion-special", Exhaustive: true, N: len(mutTemplates) + 6 + 5,
+				Run: func(c *core.Ctx, i int) {
+					registerConversionFuncs()
+					registerMutators()
+					textwire.RegisterStrFunc("nop", func(s string, args ...any) string { return s })
+					textwire.RegisterArrFunc("nop", func(a []any, args ...any) []any { return a[:0] })
+					c.State["conv"] = nil
+					specialConversionCase(c, i)
+				}})
 			return secs
 		},
 	})
+}
+
+// mutateDeep changes every map and slice reachable from x in place, the
+// way a careless callee might
+func mutateDeep(x any) {
+	switch t := x.(type) {
+	case map[string]any:
+		for k, v := range t {
+			mutateDeep(v)
+			delete(t, k)
+		}
+		t["seen"] = true
+	case []any:
+		for k, v := range t {
+			mutateDeep(v)
+			t[k] = "overwritten"
+		}
+	}
+}
+
+var cfSeen []string // what the mutating functions received, rendered before they mutate it
+
+func registerMutators() {
+	textwire.RegisterStrFunc("mut", func(s string, args ...any) string {
+		cfSeen = append(cfSeen, fmt.Sprintf("%#v", args))
+		for _, a := range args {
+			mutateDeep(a)
+		}
+		return s
+	})
+	textwire.RegisterArrFunc("mut", func(a []any, args ...any) []any {
+		cfSeen = append(cfSeen, fmt.Sprintf("%#v|%#v", a, args))
+		mutateDeep(a)
+		for _, x := range args {
+			mutateDeep(x)
+		}
+		return a[:0]
+	})
+}
+
+var mutTemplates = []struct {
+	src   string
+	sites int  // call sites, evaluated round-robin
+	same  bool // every call of a site passes the same variables, so it must receive the same content
+}{
+	{`{{ "a".mut(user) }}|{{ "b".mut(user) }}|{{ user }}`, 1, true},
+	{`@each(k in [1, 2, 3]){{ "a".mut(user, rows) }}@end{{ user }}{{ rows }}`, 1, true},
+	{`{{ o = {a: 1, b: [1, {c: 2}]} }}{{ "a".mut(o) }}{{ "a".mut(o) }}{{ o }}`, 1, true},
+	{`{{ rows.mut(user) }}{{ rows.mut(user) }}{{ rows }}{{ user }}`, 1, true},
+	{`@for(k = 0; k < 3; k++){{ rows.mut() }}{{ user.tags.mut(user.meta) }}@end{{ rows }}{{ user }}`, 2, true},
+	{`{{ x = [user, user] }}{{ "a".mut(x) }}{{ "a".mut(x) }}{{ "a".mut(x[0], x[1]) }}{{ x }}`, 1, false},
+}
+
+// specialConversionCase: a callee that overwrites what it receives must not be felt by later
+// calls; empty and nil array results behave as arrays; registered functions are callable
+// through every entry point
+func specialConversionCase(c *core.Ctx, i int) {
+	user := func() map[string]any {
+		return map[string]any{"name": "Ann", "tags": []any{"a", map[string]any{"deep": 1}}, "meta": map[string]any{"k": []any{1, 2}}}
+	}
+	switch {
+	case i < len(mutTemplates):
+		mt := mutTemplates[i]
+		src := mt.src
+		data := func() map[string]any {
+			return map[string]any{"user": user(), "rows": []any{map[string]any{"id": 1}, map[string]any{"id": 2}, []any{3}}}
+		}
+		desc := map[string]any{"source": src, "callee": "mut records its arguments, then overwrites every map and slice it was given"}
+		c.Input(desc)
+		cfSeen = cfSeen[:0]
+		d := data()
+		got := evalString(c, src, d)
+		c.Nontrivial(src)
+		if got.Panicked {
+			return
+		}
+		if got.Err != nil {
+			c.Violation("conversion:mutating-callee:failed", "the render failed: "+got.Err.Error(), desc)
+			return
+		}
+		first := map[int]string{}
+		for k, seen := range cfSeen {
+			site := k % mt.sites
+			if f, ok := first[site]; !ok {
+				first[site] = seen
+			} else if f != seen && mt.same {
+				c.Violation("conversion:mutating-callee:leak", fmt.Sprintf("call %d received %s, an earlier call with the same variables received %s: what a callee did to its copy leaked", k, clipS(seen, 300), clipS(f, 300)), desc)
+				return
+			}
+		}
+		if len(cfSeen) < 2 {
+			c.Violation("conversion:mutating-callee:failed", fmt.Sprintf("the function ran %d times", len(cfSeen)), desc)
+		}
+		// the variables print as they do with a callee that leaves its arguments alone
+		clean := evalString(c, strings.ReplaceAll(src, ".mut(", ".nop("), data())
+		if clean.Err == nil && clean.Out != got.Out {
+			c.Violation("conversion:mutating-callee:variable-changed", fmt.Sprintf("with a callee that overwrites its arguments the page renders %q, with one that leaves them alone %q", clipS(got.Out, 300), clipS(clean.Out, 300)), desc)
+		}
+		if !reflect.DeepEqual(d, data()) {
+			c.Violation("conversion:mutating-callee:data-changed", "the caller's data map was changed through a function argument", desc)
+		}
+	case i < len(mutTemplates)+6:
+		k := i - len(mutTemplates)
+		var res []any
+		if k%2 == 0 {
+			res = []any{}
+		}
+		cfResult = res
+		src := []string{"{{ [1].give().len() }}", "@each(e in [1].give())x@else empty@end", "{{ [1].give() ? \"yes\" : \"no\" }}"}[k/2]
+		want := []string{"0", " empty", "yes"}[k/2]
+		desc := map[string]any{"source": src, "function_returns": fmt.Sprintf("%#v", res)}
+		c.Input(desc)
+		got := evalString(c, src, nil)
+		c.Nontrivial(fmt.Sprint(src, res == nil))
+		if !got.Panicked && (got.Err != nil || got.Out != want) {
+			c.Violation("conversion:empty-array-result", fmt.Sprintf("a function returning %#v: %s gave %s, want %q (an empty array)", res, src, got.Describe(), want), desc)
+		}
+		// an empty receiver and an empty argument handed back
+		for s2, w2 := range map[string]string{"{{ [].rec().len() }}": "0", "{{ [].rec([]).len() }}": "0", "{{ e = [] }}{{ e.rec().append(1).len() }}": "1"} {
+			if g2 := evalString(c, s2, nil); !g2.Panicked && (g2.Err != nil || g2.Out != w2) {
+				c.Violation("conversion:empty-array-result", fmt.Sprintf("%s gave %s, want %q", s2, g2.Describe(), w2), map[string]any{"source": s2})
+			}
+		}
+	default:
+		// every entry point sees the registered functions
+		recvs := []string{`"s"`, "[1, 2]", "7", "2.5", "true"}
+		rs := recvs[(i-len(mutTemplates)-6)%len(recvs)]
+		src := "<{{ " + rs + ".rec(1, \"a\") }}>{{ v.rec() }}"
+		data := map[string]any{"v": "from data"}
+		want := evalString(c, src, data)
+		desc := map[string]any{"source": src}
+		c.Input(desc)
+		c.Nontrivial("entry-points:" + rs)
+		if want.Failed() {
+			if !want.Panicked {
+				c.Violation("conversion:call-failed", "calling a registered function failed: "+want.Err.Error(), desc)
+			}
+			return
+		}
+		files := map[string]string{"page.tw": src, "layouts/l.tw": "L[@reserve(\"b\")]", "with.tw": "@use(\"~l\")@insert(\"b\")" + src + "@end", "components/c.tw": "C[" + src + "|@slot]", "comp.tw": "@component(\"~c\", {v: v})@slot" + src + "@end@end"}
+		if err := writeFilesFresh("c20tree", files); err != nil {
+			c.Inconclusive(err.Error())
+			return
+		}
+		var fout string
+		var ferr error
+		c.Eval(1)
+		if !c.Guard(func() { fout, ferr = textwire.EvaluateFile("c20tree/page.tw", data) }) && (ferr != nil || fout != want.Out) {
+			c.Violation("conversion:entry-point:EvaluateFile", fmt.Sprintf("EvaluateFile gave (%q, %v), EvaluateString gives %q", fout, ferr, want.Out), desc)
+		}
+		tpl, err, panicked := newTemplate(c, "c20tree", ".tw")
+		if panicked {
+			return
+		}
+		if err != nil || tpl == nil {
+			c.Violation("conversion:entry-point:NewTemplate", fmt.Sprintf("loading pages that call registered functions failed: %v", err), desc)
+			return
+		}
+		for page, w := range map[string]string{"page": want.Out, "with": "L[" + want.Out + "]", "comp": "C[" + want.Out + "|" + want.Out + "]"} {
+			if o, _ := renderPage(c, tpl, page, data); !o.Panicked && (o.Err != nil || o.Out != w) {
+				c.Violation("conversion:entry-point:String", fmt.Sprintf("Template.String(%s) gave %s, want %q", page, o.Describe(), w), desc)
+			}
+			rec := newRecorder()
+			var rerr error
+			c.Eval(1)
+			if !c.Guard(func() { rerr = tpl.Response(rec, page, data) }) && (rerr != nil || rec.body.String() != w) {
+				c.Violation("conversion:entry-point:Response", fmt.Sprintf("Response(%s) gave (%q, %v), want %q", page, rec.body.String(), rerr, w), desc)
+			}
+		}
+	}
 }
 
 func conversionCase(c *core.Ctx, i int) {
